@@ -70,6 +70,13 @@ func lookupExternal(i *interpreter, fn *ssa.Function, name string) externalFn {
 		}
 	}
 	if ext := externals[name]; ext != nil {
+		if i.p != nil && i.p.c != nil {
+			for _, u := range i.p.c.H.Unstub {
+				if u == name {
+					return nil
+				}
+			}
+		}
 		i.noteIntercept(name)
 		return ext
 	}
